@@ -674,6 +674,22 @@ func (l *lemmas) discharge(s panicSite, nilFields map[string]bool) (ok bool, tri
 		if derefDominates(s.subject, s.in) {
 			return true, false, "the same value is dereferenced by a dominating instruction (which is itself an obligation)"
 		}
+		// a merged value (the result variable of a helper that returns (nil, false) on failure, used under `if ok`): on the ways
+		// that reach this instruction it is one of the values that have no nil origin
+		if fn := s.in.Parent(); fn != nil {
+			rcs := newCondSpace(fn, nil)
+			if vals := rcs.ResolveUnder(s.subject, rcs.Reach(s.in)); len(vals) > 0 && rcs.err == "" {
+				clean := true
+				for _, v := range vals {
+					if v == s.subject || len(nilOrigins(p, v, nilFields)) > 0 {
+						clean = false
+					}
+				}
+				if clean {
+					return true, false, "nil only on ways that do not reach this instruction (the value is merged from several; the nil one belongs to a way excluded by the conditions tested on the way here)"
+				}
+			}
+		}
 		var reasons []string
 		for _, o := range nos {
 			okO, whyO := l.nilOriginOK(s, o)
@@ -1185,7 +1201,16 @@ func (l *lemmas) keysNonNil(field string) lemmaResult {
 				continue
 			}
 			n++
-			for _, o := range origins(mu.Key) {
+			// the key, on the ways that reach the insertion (result variables of inlined helpers are resolved per way)
+			kcs := newCondSpace(a.Fn, nil)
+			var korigins []Origin
+			for _, kv := range kcs.ResolveUnder(mu.Key, kcs.Reach(mu)) {
+				korigins = append(korigins, origins(kv)...)
+			}
+			if len(korigins) == 0 {
+				korigins = origins(mu.Key)
+			}
+			for _, o := range korigins {
 				switch x := o.Val.(type) {
 				case *ssa.Parameter:
 					continue // a connection handed in by gRPC / by a caller that holds it
